@@ -284,6 +284,12 @@ func runC04(rc *RunCtx) {
 	}
 	retried := false
 	logFrom := disk.LogLen()
+	tidyBetween := faulty && tp.Pick(3) == 0
+	tidyWait := 0
+	if tidyBetween {
+		tidyWait = []int{0, 6, 30}[tp.Pick(3)]
+	}
+	rc.Cfg("tidy_between_retries", tidyBetween)
 	s.SwarmFreeze()
 	rc.Cfg("sched", fmt.Sprintf("stall=%d yield_on_release=%v", s.FreezePermille, s.YieldOnRelease))
 	s.SetControlled()
@@ -308,6 +314,18 @@ func runC04(rc *RunCtx) {
 					return
 				}
 				retried = true
+				// in a third of the faulty runs the operator runs a token tidy
+				// between the failed attempt and the retry (the tidy works on
+				// whatever the interrupted revocation left behind)
+				if tidyBetween {
+					h.Do(tag+"tidy", Req{NS: nsH, Op: logical.UpdateOperation, Path: "auth/token/tidy", Token: h.Root})
+					s.Probe("tidy_between_failed_revocation_and_retry")
+					// let it run: a few cheap requests of this task give the tidy
+					// goroutine its share of the schedule before the retry starts
+					for w := 0; w < tidyWait; w++ {
+						h.Do(tag+"wait", Req{NS: nsH, Op: logical.ReadOperation, Path: "rec/data/x", Token: h.Root})
+					}
+				}
 			}
 		})
 	}
